@@ -103,22 +103,50 @@ func sigTextualPrefix(c fw.Case, out []string, msg string) bool {
 	return ok && kind == "unexpected" && !vMatch(variant{}, q, lf.elems) && vMatch(variant{looseLast: true}, q, lf.elems)
 }
 
-// `...` standing for no element at all: `/a/.../b` becomes `^/a/.*/b`, which needs a second slash.
+// why a selected leaf is missing: "ellipsis" (`...` standing for no element: `/a/.../b` becomes
+// `^/a/.*/b`, which needs a second slash), "keys" (a list element of the query that does not name
+// all its keys selects nothing), "star" (a `*` element does not stand for a list element:
+// `[legalChars]*?` has no brackets), or "" when none of these explains it.  When every way of
+// selecting the leaf needs two of the unsupported features at once, the first one the query uses
+// is named.
+func missingBecause(q []*pb.PathElem, lf leaf) string {
+	if !vMatch(variant{}, q, lf.elems) {
+		return ""
+	}
+	switch {
+	case !vMatch(variant{ellipsisNeedsOne: true}, q, lf.elems):
+		return "ellipsis"
+	case !vMatch(variant{keysRequired: true}, q, lf.elems):
+		return "keys"
+	case !vMatch(variant{starKeyless: true}, q, lf.elems):
+		return "star"
+	case vMatch(variant{ellipsisNeedsOne: true, keysRequired: true, starKeyless: true}, q, lf.elems):
+		return ""
+	}
+	for _, e := range q {
+		switch {
+		case e.Name == "...":
+			return "ellipsis"
+		case e.Name == "*":
+			return "star"
+		}
+	}
+	return "keys"
+}
+
 func sigEllipsisZero(c fw.Case, out []string, msg string) bool {
 	kind, _, q, lf, ok := about(c, msg)
-	return ok && kind == "missing" && vMatch(variant{}, q, lf.elems) && !vMatch(variant{ellipsisNeedsOne: true}, q, lf.elems)
+	return ok && kind == "missing" && missingBecause(q, lf) == "ellipsis"
 }
 
-// a list element of the query that does not name all its keys selects nothing.
 func sigOmittedKeys(c fw.Case, out []string, msg string) bool {
 	kind, _, q, lf, ok := about(c, msg)
-	return ok && kind == "missing" && vMatch(variant{}, q, lf.elems) && !vMatch(variant{keysRequired: true}, q, lf.elems)
+	return ok && kind == "missing" && missingBecause(q, lf) == "keys"
 }
 
-// a `*` element does not stand for a list element (`[legalChars]*?` has no brackets).
 func sigStarElementKeyed(c fw.Case, out []string, msg string) bool {
 	kind, _, q, lf, ok := about(c, msg)
-	return ok && kind == "missing" && vMatch(variant{}, q, lf.elems) && !vMatch(variant{starKeyless: true}, q, lf.elems)
+	return ok && kind == "missing" && missingBecause(q, lf) == "star"
 }
 
 // PROTO only: createUpdate skips a selected value whose path text is shorter than the text of
